@@ -417,7 +417,8 @@ def _parallel_st(draw, aligned):
     for t in tracks:
         kind = draw(st.sampled_from(["none", "generic", "midi", "midi-unknown", "midi-sub"]))
         if kind == "generic":
-            t["instr"] = {"kind": "generic", "name": "Some instrument"}
+            # not a MIDI instrument, whatever it is called: program 1
+            t["instr"] = {"kind": "generic", "name": draw(st.sampled_from(["Some instrument", "Violin", "Flute", "Acoustic Grand Piano", "Church Organ", ""]))}
         elif kind in ("midi", "midi-sub"):
             nr = draw(st.integers(0, len(MidiInstrument.names) - 1))
             # a name that occurs twice in the table would make index() ambiguous: take the first occurrence
